@@ -119,6 +119,8 @@ where
         }
       }
     }
+    // ... and the receivers that are subscribed to nothing right now.
+    self.dispatcher.disconnect_all();
   }
 
   /// Converts this synchronous `TopicSender` into an `AsyncTopicSender`.
@@ -374,10 +376,12 @@ where
       let topics_to_subscribe: Vec<K> = self.subscriptions.lock().iter().cloned().collect();
 
       // Create the new receiver with an EMPTY subscription set.
+      let producer_mailbox = Arc::new(p);
+      dispatcher.register_mailbox(&producer_mailbox);
       let new_receiver = Self {
         dispatcher: self.dispatcher.clone(),
         consumer: c,
-        producer_mailbox: Arc::new(p),
+        producer_mailbox,
         subscriptions: Arc::new(Mutex::new(HashSet::new())),
         closed: AtomicBool::new(false),
       };
